@@ -389,8 +389,13 @@ def run(eng, R):
              "is_diagonal uses a tolerance (%s %s): a covariance with small but non-zero correlations is treated as diagonal and do_fit silently minimises the pointwise cost" % (tol, cmps))
         df = p.method(FB, "do_fit")
         txt = eng.csrc(df)  # canonical form: if/else, conditional expression, negated test and a temporary for the name are the same selection
-        R.ob("Dsw", "do_fit:cost selection", "self._fitter.parameter_to_minimize = (self._cost_function_pointwise if is_diagonal(self.total_cov_mat) else self._cost_function).name" in txt, eng.where(df),
-             "do_fit must minimise the pointwise twin only if the total covariance matrix is diagonal, the covariance cost otherwise")
+        sel = [a for a in ast.walk(eng.cnode(df)) if isinstance(a, ast.Assign) and any(isinstance(t, ast.Attribute) and t.attr == "parameter_to_minimize" for t in a.targets)
+               and isinstance(a.value, ast.Attribute) and a.value.attr == "name" and isinstance(a.value.value, ast.IfExp)
+               and " ".join(ast.unparse(a.value.value.body).split()) == "self._cost_function_pointwise" and " ".join(ast.unparse(a.value.value.orelse).split()) == "self._cost_function"]
+        R.ob("Dsw", "do_fit:cost selection", len(sel) == 1, eng.where(df),
+             "do_fit must minimise the pointwise twin only if no correlation is declared, the covariance cost otherwise (one assignment of the minimisation target chosen between the two)")
+        from . import selection
+        selection.check(eng, R, "Dsw", eng.cfunc(df, paths=False) if hasattr(eng, "cfunc") else df, "do_fit")
 
 def _cfg(cm):
     return ",".join("%s=%s" % kv for kv in sorted(cm["kwargs"].items())) or "default"
